@@ -760,7 +760,7 @@ def g_constructions3d(ctx, rng, i):
     LC.general_point
 
 
-from .c09 import _tolerant  # noqa: E402
+_tolerant = core.tolerant
 
 g_constructions2d = _tolerant(g_constructions2d)
 g_constructions3d = _tolerant(g_constructions3d)
